@@ -121,6 +121,10 @@ def check_graph(ctx, spec):
     if commit:
         sid_of = {}
         for _, sid, state in got_dumps:
+            if state and not isinstance(state, (bytes, bytearray)):
+                # a dumper was handed something that is not a serialised state at all (e.g. an actor's apply output)
+                ctx.fail(spec, 'assets-dump', 'not-a-state', f'dumped object of type {type(state).__name__}: {state!r}'[:300])
+                return
             sid_of.setdefault(term.from_bytes(state).dig if state else None, []).append(sid)
         got_digs = sorted(k for k, sids in sid_of.items() if k for _ in sids)  # multiset: twin groups may dump equal states
         if got_digs != sorted(s.dig for s in dumps.values()) or len(got_dumps) != len(dumps):
